@@ -40,6 +40,29 @@ pub fn vf_slice_view<'x, X>(v: &'x Vec<X>) -> (r: SV<'x, X>)
     ensures v@.len() == 0 ==> r is S0, v@.len() == 1 ==> r == SV::S1(&v@[0]), v@.len() == 2 ==> r == SV::S2(&v@[0], &v@[1]), v@.len() > 2 ==> r is More,
 { if v.len() == 0 { SV::S0 } else if v.len() == 1 { SV::S1(&v[0]) } else if v.len() == 2 { SV::S2(&v[0], &v[1]) } else { SV::More } }
 
+// The regex crate: the dependency's types are declared OPAQUE and the three operations the code uses are assumed contracts over
+// uninterpreted spec functions (the engine is trusted; what is proved is how `regex` (src/query/test_function.rs) uses it).
+#[verifier::external_body]
+pub struct Regex { _opaque: () }
+pub struct RegexError { pub opaque: () }
+pub struct RegexMatch { pub opaque: () }
+pub uninterp spec fn regex_valid(pattern: Seq<char>) -> bool;                          // Regex::new accepts the pattern
+pub uninterp spec fn re_is_match(pattern: Seq<char>, hay: Seq<char>) -> bool;          // Regex::is_match
+pub uninterp spec fn re_find(pattern: Seq<char>, hay: Seq<char>) -> bool;              // Regex::find(..).is_some()
+impl Regex {
+    pub uninterp spec fn pattern(&self) -> Seq<char>;
+    #[verifier::external_body]
+    pub fn new(re: &str) -> (r: Result<Regex, RegexError>)
+        ensures r is Ok <==> regex_valid(re@), r matches Ok(x) ==> x.pattern() == re@,
+    { unimplemented!() }
+    #[verifier::external_body]
+    pub fn is_match(&self, hay: &str) -> (b: bool) ensures b == re_is_match(self.pattern(), hay@) { unimplemented!() }
+    #[verifier::external_body]
+    pub fn find(&self, hay: &str) -> (r: Option<RegexMatch>) ensures r is Some <==> re_find(self.pattern(), hay@) { unimplemented!() }
+}
+pub assume_specification<T, E> [std::result::Result::<T, E>::unwrap_or] (x: std::result::Result<T, E>, d: T) -> (r: T)
+    ensures r == (match x { Ok(v) => v, Err(_) => d });
+
 // R1: X.into_iter().chain(Y).collect()
 #[verifier::external_body]
 pub fn vf_chain_collect<A>(x: Vec<A>, y: Vec<A>) -> (r: Vec<A>)
